@@ -70,6 +70,8 @@ def run_one(seed, preset=None, tier="quick", want_case=False):
                                                                   if td.kind in ("ENUM", "INPUT_OBJECT") or (td.kind == "SCALAR" and td.custom)]
     nvars = vt.rint(1, 4)
     vardefs, sels = [], []
+    invalid_defaults = []
+    unknown_field_defaults = []  # defaults that are object literals with an undefined field
     for i in range(nvars):
         base = vt.choose(input_types)
         ty = gen_wrappers(vt, base, 3)
@@ -81,19 +83,44 @@ def run_one(seed, preset=None, tier="quick", want_case=False):
         default = ABSENT
         if vt.chance(30):
             default = gen_literal(schema, ty, vt, 10)
+        elif vt.chance(12):
+            # a default that is NOT acceptable for the type ("a used default is invalid" => refused)
+            from simv.gen.rewrites import _wrong_literal
+            default = ("null",) if (is_nn(ty) and vt.chance(50)) else _wrong_literal(schema, ty)
+            invalid_defaults.append("v%d" % i)
+            if default != ("null",) and schema.kind_of(base) == "INPUT_OBJECT":
+                unknown_field_defaults.append("v%d" % i)
         vardefs.append(("v%d" % i, ty, default))
         sels.append(Field(fname, None, [("a", ("var", "v%d" % i))]))
     op = Operation("query", "Q", vardefs, sels)
+    ops = [op]
+    if vt.chance(30):
+        # a second operation declaring the SAME variable names with other types / defaults: the
+        # definitions of the selected operation are the ones that count
+        vardefs2, sels2 = [], []
+        for i in range(nvars):
+            base = vt.choose(input_types)
+            ty2 = gen_wrappers(vt, base, 3)
+            fname = "other%d" % i
+            fd = FieldDef(fname, N("Int"), {"a": ArgDef("a", ty2)})
+            fd.impl = "resolver"
+            q.fields[fname] = fd
+            vardefs2.append(("v%d" % i, ty2, gen_literal(schema, ty2, vt, 10) if vt.chance(40) else ABSENT))
+            sels2.append(Field(fname, None, [("a", ("var", "v%d" % i))]))
+        op2 = Operation("query", "Q2", vardefs2, sels2)
+        ops = [op, op2] if vt.chance(50) else [op2, op]
     case = Case()
-    case.schema, case.doc = schema, Document([op])
+    case.schema, case.doc = schema, Document(ops)
     case.sdl = print_sdl(schema)
     case.layout = vt.draw(3)
     case.text = print_document(case.doc, case.layout)
-    case.op, case.op_name = op, None
+    case.op, case.op_name = op, ("Q" if len(ops) > 1 else None)
     raw = {}
     mutations = {}
     for name, ty, default in vardefs:
         mode = vt.weighted([(4, "valid"), (4, "mutated"), (2, "absent"), (1, "null"), (1, "wrong")])
+        if name in invalid_defaults and vt.chance(70):
+            mode = "absent"
         if mode == "absent":
             continue
         if mode == "null":
@@ -116,7 +143,7 @@ def run_one(seed, preset=None, tier="quick", want_case=False):
     name = "%s_%d" % (ID, seed)
     try:
         engine = cook_engine(schema, name, cfg, sdl=case.sdl)
-        out = execute_once(engine, case.text, None, raw, plan, tape.sub("sched"), sched[0], sched[1], sched[2],
+        out = execute_once(engine, case.text, case.op_name, raw, plan, tape.sub("sched"), sched[0], sched[1], sched[2],
                            root_value=plan.root_value)
     finally:
         forget(name)
@@ -134,6 +161,10 @@ def run_one(seed, preset=None, tier="quick", want_case=False):
                     break
     for v in viol:
         v["sig"]["verdict"] = "reject" if plan.refused else "accept"
+        if v["clause"] == "offending_variable_not_reported" and v["sig"].get("var") in unknown_field_defaults:
+            v["sig"] = {"cause": "default_value_with_undefined_input_field"}
+        elif v["clause"] in ("not_refused", "ran_before_refusal") and plan.var_bad and all(n in unknown_field_defaults and n not in raw for n in plan.var_bad):
+            v["sig"] = {"cause": "default_value_with_undefined_input_field"}
     r = base_result(tape, out, viol)
     r["digest"] = run_digest(out.trace, out.events, out.resp, repr(out.exc))
     r["case_digest"] = run_digest(case.text, raw)
@@ -145,7 +176,9 @@ def run_one(seed, preset=None, tier="quick", want_case=False):
                    "verdict_ambiguous": int(bool(plan.var_ambiguous)),
                    "several_offending_variables": int(len(plan.var_bad) >= 2),
                    "default_used": int(any(d is not ABSENT and n not in raw for n, _, d in vardefs)),
-                   "input_object_variable": int(any(isinstance(v, dict) for v in raw.values()))}
+                   "input_object_variable": int(any(isinstance(v, dict) for v in raw.values())),
+                   "invalid_default_used": int(any(n not in raw for n in invalid_defaults)),
+                   "same_variable_names_in_two_operations": int(len(ops) > 1)}
     if want_case or viol:
         c = case.render()
         c["engine_config"] = cfg
